@@ -9,8 +9,10 @@ open Nervus Nervus.Crash
 
 /-- **C01, full strength** (not proved — kept visible): as `acked_survive` below but without the
     compaction conditions `CondHist`.  False today: `C02.counterexample_live_tree` (a torn in-place
-    write of a live leaf loses a property of an acknowledged, already compacted transaction); not
-    proved for compactions that split a leaf. -/
+    write of a live leaf loses a property of an acknowledged, already compacted transaction) and
+    `C02.counterexample_live_split` (an in-place split of the live leaf: plain process death
+    between the left-half rewrite and the manifest); not proved for compactions that sink into a
+    live tree with an internal root. -/
 def C01_full : Prop :=
   ∀ (rounds : List Round), FreshHist [] rounds →
     ∃ m fs', recover cfgOfSource (afterRounds cfgOfSource (created cfgOfSource) rounds) = .ok (m, fs') ∧
@@ -21,7 +23,7 @@ def C01_full : Prop :=
 /-- **C01 (`acked_survive`)**: for every list of incarnations as in `C02.crash_prefix` (open,
     commits and compactions; death at any I/O step of an open, a commit, a compaction or the
     close, or between operations; process death or power loss with any subset of unsynced
-    operations; iterated; under the compaction conditions `CondHist`), every commit that RETURNED
+    operations; iterated; under the compaction conditions `CondHist`: no in-place split or torn write of a LIVE leaf), every commit that RETURNED
     in any incarnation is completely there — all its nodes, edges and properties — when the
     database is opened after the last crash. -/
 theorem acked_survive (rounds : List Round) (hok : FreshHist [] rounds)
@@ -50,6 +52,25 @@ theorem acked_survive_creation (rounds : List Round) (hok : FreshHist [] rounds)
         (∀ x ∈ tx.nodes, x ∈ (content m fs'.pv).nodes) ∧ (∀ e ∈ tx.edges, e ∈ (content m fs'.pv).edges) ∧
         (∀ q ∈ tx.props, q ∈ (content m fs'.pv).props) := by
   obtain ⟨T, m, fs', hadm, hrec, hsame⟩ := C02.crash_prefix_creation rounds hok hc
+  refine ⟨m, fs', hrec, ?_⟩
+  intro r hr tx htx
+  have hin : tx ∈ T := admissible_acked hadm r.obs (List.mem_map.mpr ⟨r, hr, rfl⟩) tx htx
+  rw [spec_run_eq] at hsame
+  obtain ⟨hn, he, hp⟩ := hsame
+  refine ⟨?_, ?_, ?_⟩
+  · intro x hx; rw [hn]; exact mem_allNodes hin x hx
+  · intro e hx; exact (he e).mpr (mem_allEdges hin e hx)
+  · intro q hx; exact (hp q).mpr (mem_allProps hin q hx)
+
+/-- **C01 for every configuration that meets `CfgOK`** (every leaf capacity ≥ 1: compactions
+    that split the leaves of a new tree are covered, non-vacuity `C02.ex_split`) -/
+theorem acked_survive_cfg (cfg : Cfg) (hcfg : CfgOK cfg) (rounds : List Round) (hok : FreshHist [] rounds)
+    (hc : CondHist cfg ({} : FS) rounds) :
+    ∃ m fs', recover cfg (afterRounds cfg ({} : FS) rounds) = .ok (m, fs') ∧
+      ∀ r ∈ rounds, ∀ tx ∈ r.obs.acked,
+        (∀ x ∈ tx.nodes, x ∈ (content m fs'.pv).nodes) ∧ (∀ e ∈ tx.edges, e ∈ (content m fs'.pv).edges) ∧
+        (∀ q ∈ tx.props, q ∈ (content m fs'.pv).props) := by
+  obtain ⟨T, m, fs', hadm, hrec, hsame⟩ := C02.crash_prefix_cfg cfg hcfg rounds hok hc
   refine ⟨m, fs', hrec, ?_⟩
   intro r hr tx htx
   have hin : tx ∈ T := admissible_acked hadm r.obs (List.mem_map.mpr ⟨r, hr, rfl⟩) tx htx
